@@ -159,34 +159,60 @@ except Exception as e:
 """
 
 
+def multi_model_cif(rng):
+    """a complete peptide as a multi-model mmCIF entry (models distinguishable by their coordinates,
+    model numbers not necessarily 1..n)"""
+    from props import c10
+
+    _f, res = G.window(rng, rng.choice([3, 4, 5]))
+    G.set_chain(res, "A", 1)
+    nm = rng.choice([2, 3, 3, 4])
+    nums = rng.choice([list(range(1, nm + 1)), list(range(9, 9 + nm)), [3, 12, 100, 7][:nm]])
+    atoms = []
+    serial = 1
+    for k, m in enumerate(nums):
+        for r in res:
+            for a in r:
+                atoms.append({"het": False, "name": a.name, "resn": a.resn, "chain": "A", "resseq": a.resseq, "xs": f"{a.x + 0.05 * k:.3f}", "ys": f"{a.y:.3f}", "zs": f"{a.z:.3f}",
+                              "occ": "1.00", "b": "20.00", "element": a.elem or a.name[0], "alt": "", "ins": "", "charge": "", "model": m, "serial": serial})
+                serial += 1
+    return c10.write_cif(atoms, False)
+
+
 def hash_seeds(ctx: Ctx, n):
     rng = ctx.rng
     seen = set()
     for ci in range(n):
         runs, _fails = gen_inputs(rng)
-        r = runs[-1] if ci % 2 == 0 else rng.choice(runs[:-1])
+        r = runs[-1] if ci % 3 == 0 else rng.choice(runs[:-1])
         text, opts, extra = r
+        inname = "in.pdb"
+        if ci % 3 == 2:
+            cif = multi_model_cif(rng)
+            if cif is not None:
+                text, opts, extra, inname = cif, ["--ff=AMBER", "--nodebump", "--noopt"], None, "in.cif"
         d = tempfile.mkdtemp(prefix="c11_")
         try:
-            open(os.path.join(d, "in.pdb"), "w").write(text)
+            open(os.path.join(d, inname), "w").write(text)
             for k, v in (extra or {}).items():
                 open(os.path.join(d, k), "w").write(v)
             outs = {}
-            for seed in ("0", "1", "2", "random"):
+            for seed in ("0", "1", "2", "random") if inname == "in.pdb" else ("0", "1", "2", "3", "4", "5", "random"):
                 out = os.path.join(d, f"out_{seed}.pqr")
                 env = dict(os.environ, PYTHONHASHSEED=seed, PYTHONPATH=str(REPO))
-                p = subprocess.run([sys.executable, "-c", SCRIPT, *[o.replace("@DIR@", d) for o in opts], "--log-level=CRITICAL", os.path.join(d, "in.pdb"), out], capture_output=True, text=True, env=env, timeout=300)
+                p = subprocess.run([sys.executable, "-c", SCRIPT, *[o.replace("@DIR@", d) for o in opts], "--log-level=CRITICAL", os.path.join(d, inname), out], capture_output=True, text=True, env=env, timeout=300)
                 outs[seed] = (open(out).read() if os.path.exists(out) else None, p.stdout.strip()[-40:])
                 ctx.evaluations += 1
             ctx.distinct.add(("hash-seed", tuple(o.split("=")[0] for o in opts)))
-            ctx.count("hash-seed-runs", "ligand" if extra else "plain")
+            ctx.count("hash-seed-outcome", ("cif:" if inname == "in.cif" else "pdb:") + ("written" if outs["0"][0] else "failed:" + outs["0"][1][-30:]))
+            ctx.count("hash-seed-runs", "ligand" if extra else "multi-model-cif" if inname == "in.cif" else "plain")
             if len({v for v in outs.values()}) != 1:
                 sig = {"kind": "hash-seed-dependent", "ligand": bool(extra)}
                 if tuple(sig.items()) not in seen:
                     seen.add(tuple(sig.items()))
                     ctx.violate(sig, "PQR bytes differ between fresh processes with different PYTHONHASHSEED", {"pdb": text, "options": opts, "extra": extra})
             # and the in-process result equals the fresh-process result
-            st, pqr = do_run(r)
+            st, pqr = do_run(r) if inname == "in.pdb" else (None, G.run_pipeline(text, opts, suffix=".cif").pqr)
             if pqr != outs["0"][0]:
                 sig = {"kind": "process-dependent", "ligand": bool(extra)}
                 if tuple(sig.items()) not in seen:
@@ -205,7 +231,7 @@ def run(ctx: Ctx):
         "module-state fingerprint before/after each round; the same run in fresh processes under PYTHONHASHSEED 0/1/2/random; a case is (history shape, option names); distinct counts distinct tuples"
     )
     histories(ctx, ctx.scale(2, 40))
-    hash_seeds(ctx, ctx.scale(3, 60))
+    hash_seeds(ctx, ctx.scale(6, 90))
 
 
 def replay(ctx: Ctx, data: dict) -> bool:
